@@ -5,13 +5,17 @@ From TV Require Import Proofs.MacroMatch Proofs.MacroRules Proofs.MacroTails Pro
 Require Import Lia ZifyBool ZifyN.
 
 (* ---- how @value treats the (possibly parenthesised) literal ---- *)
+(* `lit`, `(lit)` go to IntoDeserializer (an integer is an i32); `(-lit)` goes to macros::number (an i64) *)
+Definition signed_lit_value (sg : sign) (l : lit) : eres mval :=
+  match sg with SgMinus => neg_lit_value l | _ => lit_value false l end.
+
 Lemma value_signed_lit : forall sg l cur,
-  Ev cur (value_in (signed_tok sg (TLit l))) (lit_value (is_minus sg) l) 1.
+  Ev cur (value_in (signed_tok sg (TLit l))) (signed_lit_value sg l) 1.
 Proof.
-  intros [| |] l cur; cbn [signed_tok is_minus].
+  intros [| |] l cur; cbn [signed_tok signed_lit_value].
   - eapply Ev_valother; [apply value_rule_lit|reflexivity|reflexivity].
   - eapply Ev_valother; [apply value_rule_paren_lit|reflexivity|reflexivity].
-  - eapply Ev_valother; [apply value_rule_paren_neg_lit|reflexivity|reflexivity].
+  - eapply Ev_valneg; [apply value_rule_paren_neg_lit|reflexivity|reflexivity].
 Qed.
 
 (* ---- strings, booleans, specials ---- *)
@@ -39,9 +43,10 @@ Qed.
 Lemma float_ev : forall sg t f, float_meaning sg t = Some f -> val_ev (AFloat sg t) (MFloat f) 1.
 Proof.
   intros sg t f H. cbn [val_ev].
-  replace (EOk (MFloat f)) with (lit_value (is_minus sg) (LFloat t)); [apply value_signed_lit|].
+  replace (EOk (MFloat f)) with (signed_lit_value sg (LFloat t)); [apply value_signed_lit|].
   unfold float_meaning in H. destruct (toml_float_syntax t); [|discriminate].
-  cbn [lit_value]. unfold float_lit_value.
+  assert (Hs : signed_lit_value sg (LFloat t) = float_lit_value (is_minus sg) t) by (destruct sg; reflexivity).
+  rewrite Hs. unfold float_lit_value.
   destruct (fdec_of_text (remove_us t)) as [n|n|n m e]; try discriminate.
   destruct (overflows m e); [discriminate|]. injection H as <-. reflexivity.
 Qed.
@@ -76,23 +81,51 @@ Proof.
   rewrite (int_scan_radix base body 0%N false v Hc Hv). cbn [orb]. rewrite He. reflexivity.
 Qed.
 
-Lemma wrap_i32_small : forall z, (- 2147483648 <= z <= 2147483647)%Z -> wrap_i32 z = z.
-Proof. intros z H. unfold wrap_i32. rewrite Z.mod_small by lia. lia. Qed.
+Lemma wrap_i64_small : forall z, (- 9223372036854775808 <= z <= 9223372036854775807)%Z -> wrap_i64 z = z.
+Proof. intros z H. unfold wrap_i64. rewrite Z.mod_small by lia. lia. Qed.
 
 Lemma int_ev : forall sg t z, int_ok sg t = true -> int_meaning sg t = Some z -> val_ev (AInt sg t) (MInt z) 1.
 Proof.
   intros sg t z Hok Hm. cbn [val_ev].
-  replace (EOk (MInt z)) with (lit_value (is_minus sg) (LInt t)); [apply value_signed_lit|].
+  replace (EOk (MInt z)) with (signed_lit_value sg (LInt t)); [apply value_signed_lit|].
   unfold int_ok in Hok. apply andb_true_iff in Hok as [Htext Hmag].
   unfold int_meaning in Hm. destruct (toml_int_syntax sg t); [|discriminate].
   unfold int_magnitude in Hmag.
   pose proof (rust_int_lit_value t) as HL.
   destruct (int_prefix t) as [base body].
   destruct (radix_value base 0 (remove_us body)) as [v|] eqn:Ev; [|discriminate].
-  specialize (HL v Htext eq_refl). cbn [lit_value]. rewrite HL.
+  specialize (HL v Htext eq_refl).
   destruct (in_i64 (apply_sign sg v)); [|discriminate]. injection Hm as <-.
-  destruct sg; cbn [is_minus apply_sign] in *.
+  destruct sg; cbn [signed_lit_value lit_value neg_lit_value apply_sign] in *; rewrite HL.
   - assert (Hle : (Z.of_N v <=? i32_max)%Z = true) by (unfold i32_max; lia). rewrite Hle. reflexivity.
   - assert (Hle : (Z.of_N v <=? i32_max)%Z = true) by (unfold i32_max; lia). rewrite Hle. reflexivity.
-  - rewrite wrap_i32_small by lia. reflexivity.
+  - rewrite wrap_i64_small by lia. reflexivity.
 Qed.
+
+(* every negative integer the TOML grammar accepts (and i64 holds) is a supported spelling *)
+Lemma us_digits_chars : forall isd s prev, us_digits isd prev s = true ->
+  forallb (fun b => byte_eqb b x5f || isd b) s = true /\ (prev = true \/ existsb isd s = true).
+Proof.
+  intros isd. induction s as [|b s IH]; intros prev H; cbn [us_digits] in H.
+  - split; [reflexivity|left; exact H].
+  - cbn [forallb existsb]. destruct (isd b) eqn:Ed.
+    + destruct (IH true H) as [Hall _]. rewrite Hall, orb_true_r. split; [reflexivity|right; reflexivity].
+    + destruct (byte_eqb b x5f) eqn:Eu; [|discriminate]. apply andb_true_iff in H as [Hp H].
+      destruct (IH false H) as [Hall [Hf|Hex]]; [discriminate|]. rewrite Hall. split; [reflexivity|right; exact Hex].
+Qed.
+
+Theorem negative_all_supported : forall t z, int_meaning SgMinus t = Some z -> int_ok SgMinus t = true.
+Proof.
+  intros t z H. unfold int_meaning in H. destruct (toml_int_syntax SgMinus t) eqn:Es; [|discriminate].
+  unfold int_ok, int_text_ok, int_magnitude. unfold toml_int_syntax in Es.
+  destruct (int_prefix t) as [base body]. apply andb_true_iff in Es as [Hus _].
+  destruct (us_digits_chars _ _ _ Hus) as [Hall [Hf|Hex]]; [discriminate|].
+  destruct (radix_value base 0 (remove_us body)) as [v|]; [|discriminate].
+  destruct (in_i64 (apply_sign SgMinus v)) eqn:Ei; [|discriminate].
+  unfold radix_char. unfold is_radix_digit in *. rewrite Hall, Hex. cbn [andb].
+  unfold in_i64, apply_sign, i64_min in Ei. lia.
+Qed.
+
+Theorem negative_integers : forall t z, int_meaning SgMinus t = Some z ->
+  int_ok SgMinus t = true /\ val_ev (AInt SgMinus t) (MInt z) 1.
+Proof. intros t z H. split; [exact (negative_all_supported t z H)|exact (int_ev SgMinus t z (negative_all_supported t z H) H)]. Qed.
